@@ -4,6 +4,7 @@ import (
 	"bytes"
 	"context"
 	"fmt"
+	"io"
 	"math"
 	stdhttp "net/http"
 	"reflect"
@@ -54,6 +55,7 @@ type c12Fix struct {
 	root           *gen.Type
 	// inputs (on read-only trap pages)
 	tb, tj, pb, pj, hj, hrespb []byte
+	hrespMsg, hrespMsgTrunc    []byte // reply envelope around hrespb (and a truncated one)
 	tbTrunc, tjTrunc, pbTrunc  []byte
 	tjMissing                  []byte
 	paths                      [][]generic.Path
@@ -61,12 +63,13 @@ type c12Fix struct {
 }
 
 type c12Descs struct {
-	t     *thrift.TypeDescriptor
-	hreq  *thrift.TypeDescriptor
-	hresp *thrift.TypeDescriptor
-	p     *dproto.TypeDescriptor
-	hfn   *thrift.FunctionDescriptor
-	hconv *j2t.HTTPConv
+	t      *thrift.TypeDescriptor
+	hreq   *thrift.TypeDescriptor
+	hresp  *thrift.TypeDescriptor
+	p      *dproto.TypeDescriptor
+	hfn    *thrift.FunctionDescriptor
+	hconv  *j2t.HTTPConv
+	thconv *t2j.HTTPConv
 	// shared converter instances
 	t2j, t2jHTTP            *t2j.BinaryConv
 	j2t, j2tStrict, j2tHTTP *j2t.BinaryConv
@@ -95,6 +98,7 @@ func (f *c12Fix) parse() (*c12Descs, error) {
 	d.hresp = fn.Response().Struct().FieldById(0).Type()
 	d.hfn = fn
 	d.hconv = j2t.NewHTTPConv(meta.EncodingThriftBinary, fn)
+	d.thconv = t2j.NewHTTPConv(meta.EncodingThriftBinary, fn)
 	ps, err := dproto.NewDescritorFromContent(context.Background(), "verif.proto", f.protoText, nil)
 	if err != nil {
 		return nil, err
@@ -320,6 +324,32 @@ func (f *c12Fix) ops() []c12Op {
 			}
 			return s + fmt.Sprintf("|%d|%s|%v", resp.StatusCode, resp.Header.Get("X-R"), ck), b
 		}},
+		{"t2j.HTTPConv.Do", func(d *c12Descs) (string, []byte) {
+			resp := dhttp.NewHTTPResponse()
+			err := d.thconv.Do(ctx, resp, f.hrespMsg, conv.Options{WriteDefaultField: true})
+			var body []byte
+			if err == nil && resp.Response.Body != nil {
+				body, _ = io.ReadAll(resp.Response.Body)
+			}
+			s, b := resStr(body, err)
+			var ck []string
+			for _, x := range (&stdhttp.Response{Header: resp.Header}).Cookies() {
+				ck = append(ck, x.Name+"="+x.Value)
+			}
+			return s + fmt.Sprintf("|%d|%s|%v", resp.StatusCode, resp.Header.Get("X-R"), ck), b
+		}},
+		{"t2j.HTTPConv.DoInto", func(d *c12Descs) (string, []byte) {
+			resp := dhttp.NewHTTPResponse()
+			buf := make([]byte, 0, 8)
+			err := d.thconv.DoInto(ctx, resp, f.hrespMsg, &buf, conv.Options{})
+			s, b := resStr(buf, err)
+			return s + fmt.Sprintf("|%d|%s", resp.StatusCode, resp.Header.Get("X-R")), b
+		}},
+		{"t2j.HTTPConv.Do-truncated", func(d *c12Descs) (string, []byte) {
+			resp := dhttp.NewHTTPResponse()
+			err := d.thconv.Do(ctx, resp, f.hrespMsgTrunc, conv.Options{})
+			return resStr(nil, err)
+		}},
 		{"thrift.Value.Interface", func(d *c12Descs) (string, []byte) {
 			v, err := generic.NewValue(d.t, f.tb).Interface(gopts())
 			if err != nil {
@@ -427,6 +457,9 @@ func c12Fixture(cs *h.Case) *c12Fix {
 	f.tb, f.tj, f.pb, f.pj = f.trap(tb), f.trap([]byte(tj)), f.trap(pb), f.trap([]byte(pj))
 	f.hj = f.trap([]byte(`{"Plain":123456789012,"Dflt":"d"}`))
 	f.hrespb = f.trap(tref.Encode(hresp))
+	env := tref.WrapMessage("M", 2, 9, 0, tref.Encode(hresp))
+	f.hrespMsg = f.trap(env)
+	f.hrespMsgTrunc = f.trap(env[:len(env)-7])
 	if len(tb) > 1 {
 		f.tbTrunc = f.trap(tb[:1+cs.R.Intn(len(tb)-1)])
 	} else {
